@@ -1743,7 +1743,9 @@ func (r resolverQuery) loadAsFile(path string, extensionOrder []string) (string,
 		r.debugLogs.addNote(fmt.Sprintf("Failed to read directory %q: %s", dirPath, originalError.Error()))
 	}
 	if err != nil {
-		if err != syscall.ENOENT {
+		// Ignore "ENOTDIR" here for the same reason as in "dirInfoUncached": a path
+		// that contains a file as a parent directory is just a path that doesn't exist
+		if err != syscall.ENOENT && err != syscall.ENOTDIR {
 			prettyPaths := MakePrettyPaths(r.fs, logger.Path{Text: dirPath, Namespace: "file"})
 			r.log.AddError(nil, logger.Range{}, fmt.Sprintf("Cannot read directory %q: %s",
 				prettyPaths.Select(r.options.LogPathStyle), err.Error()))
